@@ -2,7 +2,6 @@ use std::{io, io::Write};
 
 use byteorder::WriteBytesExt;
 use bytes::{Buf, Bytes, BytesMut};
-use digest::Digest;
 use zeroize::ZeroizeOnDrop;
 
 use crate::{
@@ -119,11 +118,16 @@ impl EncryptedSecretParams {
         match &self.s2k_params {
             S2kParams::Unprotected => unreachable!(),
             S2kParams::LegacyCfb { sym_alg, iv } => {
-                let key = md5::Md5::digest(pw.read());
+                // "Simple S2K" with MD5; ciphers with keys longer than one MD5 digest need
+                // more than one hash context, like any other Simple S2K derivation
+                let key = StringToKey::Simple {
+                    hash_alg: crate::crypto::hash::HashAlgorithm::Md5,
+                }
+                .derive_key(&pw.read(), sym_alg.key_size())?;
 
                 // Decryption
                 let mut plaintext: BytesMut = self.data.clone().into();
-                sym_alg.decrypt_with_iv_regular(&key, iv, &mut plaintext)?;
+                sym_alg.decrypt_with_iv_regular(key.as_ref(), iv, &mut plaintext)?;
 
                 // Checksum
                 if plaintext.len() < 2 {
